@@ -110,7 +110,15 @@ static void report_race(SimThread *t, uintptr_t a, bool wr, bool atomic, uintptr
     G.races++;
     u64 pa = pc, pb = s.pc; if (pa > pb) { u64 x = pa; pa = pb; pb = x; }
     if (G.races == 1) { G.race_pc_a = pa; G.race_pc_b = pb; }
-    if (!G.cfg.race_is_violation) return;
+    static int survey = -1; if (survey < 0) survey = getenv("DSIM_RACE_SURVEY") ? 1 : 0;
+    if (survey) {       // exploratory (bin/race_survey): list every distinct racing pair of any scenario, never a verdict
+        static u64 seen[256][2]; static int nseen;
+        for (int i = 0; i < nseen; i++) if (seen[i][0] == pa && seen[i][1] == pb) return;
+        if (nseen < 256) { seen[nseen][0] = pa; seen[nseen][1] = pb; nseen++; tl_in_rt++; fprintf(stderr, "RACE %llx %llx seed=%llu\n", (unsigned long long)pa, (unsigned long long)pb, (unsigned long long)G.seed); tl_in_rt--; }
+        return;
+    }
+    static int force = -1; if (force < 0) force = getenv("DSIM_FORCE_RACES") ? 1 : 0;      // debugging aid for a pair listed by bin/race_survey: full stacks
+    if (!G.cfg.race_is_violation && !force) return;
     static char s1[2048], s2[2048], cls[96];
     format_stack(s1, sizeof s1, t->stack_node, pc);
     format_stack(s2, sizeof s2, s.stack, s.pc);
